@@ -162,7 +162,7 @@ class Tree:
         owned = OWNED.get(self.kind(obj), ())
         is_ds = isinstance(obj, (nix.DataArray, nix.DataFrame))
         for name in public_properties(type(obj)):
-            if name in ("file", "id") or name in DERIVED or (name == "data" and is_ds) or name == "dimensions":
+            if name in ("file", "id") or name in DERIVED or name.startswith("referring_") or (name == "data" and is_ds) or name == "dimensions":
                 continue
             try:
                 v = getattr(obj, name)
